@@ -49,6 +49,11 @@ MenuC10 == {NoScript} \cup {Sc(o, i, 0) : o \in {"CloneRoot", "DropRoot", "Downg
 MenuC10Q == {NoScript} \cup {Sc(o, i, 0) : o \in {"CloneRoot", "DropRoot", "UpgradeWeak"}, i \in Obj}
                        \cup {Sc("Adopt", i, j) : i \in Obj, j \in Obj}
 MenuPanic == {NoScript, Sc("Panic", 0, 0)}
+\* consuming calls (try_unwrap, make_mut with a good and with a panicking Clone, raw counts) on
+\* objects whose destructors may panic
+OpsCPanic == {"New", "CloneRoot", "DropRoot", "AdoptStore", "Downgrade", "WeakDrop", "Upgrade",
+              "TryUnwrap", "MakeMut", "MakeMutS", "MakeMutP", "IntoRaw", "FromRaw", "DecStrong", "DropDetached"}
+OpsCPanicT == {"New", "CloneRoot", "DropRoot", "AdoptStore", "Downgrade", "TryUnwrap", "MakeMutS", "MakeMutP", "DropDetached"}
 OpsConsume == {"New", "CloneRoot", "DropRoot", "AdoptStore", "TakeUnadopt", "Store", "Take", "DropStored", "Downgrade", "WeakDrop", "Upgrade",
                "TryUnwrap", "GetMut", "MakeMut", "MakeMutS", "MakeMutP", "IntoRaw", "FromRaw", "IncStrong", "DecStrong", "DropDetached"}
 VPurge == [bust |-> "owned", loop |-> "ignored", consume |-> "purge"]
